@@ -1,5 +1,902 @@
+//! C18 — a compiled regex can be used from many threads at once.
+//!
+//! System under simulation: T caller threads (real threads under the baton scheduler) running
+//! seeded programs over the whole search API against one shared `Regex`, clones of it, or both.
+//! Oracle: every call returns exactly what the same call returns alone on a fresh `Regex`.
+
 use crate::common::*;
-use serde_json::Value;
-pub fn run(_opts: &Opts) -> i32 { 2 }
-pub fn replay(_case: &Value) -> Option<(String, String)> { None }
-pub fn digest(_seed: u64, _n: u64, _workers: usize) -> Vec<u64> { Vec::new() }
+use crate::gen::{self, GenCfg};
+use crate::rng::{derive, Fnv, Rng};
+use crate::sched::{self, Policy, Sched, SITE_OP_BOUNDARY};
+use fancy_regex::verif::{self, LimitOverride};
+use fancy_regex::{Captures, NoExpand, Regex, RegexBuilder};
+use serde_json::{json, Value};
+use std::collections::HashSet;
+use std::sync::{Arc, Mutex};
+use std::time::Duration;
+
+pub const PROP: &str = "C18";
+
+/// Compile-time part of the property. If `/repo` still builds but this module does not, the
+/// `check` script reports the build failure as the violation (it greps for this module's name).
+#[allow(dead_code)]
+mod frsim_c18_static_assertions {
+    use fancy_regex::{Captures, Match, Matches, CaptureMatches, Regex, Split, SplitN};
+    fn send_sync_clone<T: Send + Sync + Clone>() {}
+    fn send<T: Send>() {}
+    fn sync<T: Sync>() {}
+    fn assertions() {
+        send_sync_clone::<Regex>();
+        send::<Captures<'static>>();
+        sync::<Captures<'static>>();
+        send::<Match<'static>>();
+        sync::<Match<'static>>();
+        send::<Matches<'static, 'static>>();
+        send::<CaptureMatches<'static, 'static>>();
+        send::<Split<'static, 'static>>();
+        send::<SplitN<'static, 'static>>();
+    }
+}
+
+#[derive(Clone, Debug, PartialEq, Eq)]
+pub enum RepKind {
+    Identity,
+    Const,
+    NoExpand,
+    Template,
+    /// closure that searches with the same regex while the replace is in progress
+    Reentrant,
+}
+
+#[derive(Clone, Debug, PartialEq, Eq)]
+pub enum OpKind {
+    IsMatch,
+    Find,
+    FindFromPos(usize),
+    Captures(usize),
+    FindIter,
+    CapturesIter,
+    Split,
+    SplitN(usize),
+    Replace(usize, RepKind),
+    /// clone the regex (possibly while other threads search), search with the clone, drop it
+    CloneAndFind,
+    /// take captures, let other threads run, then read every group (shared name table)
+    CapturesHeld,
+}
+
+#[derive(Clone, Debug, PartialEq, Eq)]
+pub struct Op {
+    pub kind: OpKind,
+    /// which regex of the scenario
+    pub re: usize,
+    /// which text of the scenario
+    pub text: usize,
+    /// limit fault on the op's j-th vm::run: (j, "ble"|"so", value)
+    pub fault: Option<(u64, String, usize)>,
+}
+
+#[derive(Clone, Debug)]
+pub struct RegexSpec {
+    pub pattern: String,
+    pub builder_limit: Option<usize>,
+}
+
+impl RegexSpec {
+    pub fn build(&self) -> Option<Regex> {
+        match self.builder_limit {
+            None => compile(&self.pattern),
+            Some(k) => std::panic::catch_unwind(|| RegexBuilder::new(&self.pattern).backtrack_limit(k).build())
+                .ok()
+                .and_then(|r| r.ok()),
+        }
+    }
+}
+
+/// How a thread reaches its regexes.
+#[derive(Clone, Copy, Debug, PartialEq, Eq)]
+pub enum Sharing {
+    /// all threads use the same `Arc<Regex>`
+    Shared,
+    /// every thread gets its own clone (made before the threads start)
+    Clones,
+    /// even-numbered threads share, odd-numbered ones use clones
+    Mixed,
+}
+
+#[derive(Clone, Debug)]
+pub struct Scenario {
+    pub regexes: Vec<RegexSpec>,
+    pub texts: Vec<String>,
+    pub threads: Vec<Vec<Op>>,
+    pub sharing: Sharing,
+}
+
+// ------------------------------------------------------------------------------------------------
+// executing one operation; the result is a plain string so that it can be compared and printed
+
+fn fmt_span(m: Option<fancy_regex::Match<'_>>) -> String {
+    match m {
+        Some(m) => format!("({},{})", m.start(), m.end()),
+        None => "-".to_string(),
+    }
+}
+
+fn fmt_caps(c: &Captures<'_>, re: &Regex) -> String {
+    let mut s = String::new();
+    s.push_str(&format!("len={}", c.len()));
+    for i in 0..c.len() {
+        s.push_str(&format!(" {}:{}", i, fmt_span(c.get(i))));
+    }
+    // iter() and name() must agree with get()
+    let via_iter: Vec<String> = c.iter().map(fmt_span).collect();
+    s.push_str(&format!(" iter=[{}]", via_iter.join(",")));
+    for (i, n) in re.capture_names().enumerate() {
+        if let Some(n) = n {
+            s.push_str(&format!(" {}@{}={}", n, i, fmt_span(c.name(n))));
+        }
+    }
+    s
+}
+
+fn fmt_err(e: &fancy_regex::Error) -> String {
+    format!("Err({:?})", err_kind(e))
+}
+
+pub fn exec_op(re: &Regex, text: &str, op: &Op) -> String {
+    verif::reset_run_ordinal();
+    match &op.fault {
+        Some((j, kind, val)) => verif::set_fault_plan(vec![(
+            *j,
+            if kind == "ble" {
+                LimitOverride { backtrack_limit: Some(*val), max_stack: None }
+            } else {
+                LimitOverride { backtrack_limit: None, max_stack: Some(*val) }
+            },
+        )]),
+        None => verif::set_fault_plan(Vec::new()),
+    }
+    let r = std::panic::catch_unwind(std::panic::AssertUnwindSafe(|| exec_op_inner(re, text, op)));
+    verif::set_fault_plan(Vec::new());
+    match r {
+        Ok(s) => s,
+        Err(p) => format!("PANIC({})", panic_message(p)),
+    }
+}
+
+fn clamp_pos(text: &str, pos: usize) -> usize {
+    let mut p = pos.min(text.len());
+    while !text.is_char_boundary(p) {
+        p -= 1;
+    }
+    p
+}
+
+fn exec_op_inner(re: &Regex, text: &str, op: &Op) -> String {
+    match &op.kind {
+        OpKind::IsMatch => match re.is_match(text) {
+            Ok(b) => format!("{}", b),
+            Err(e) => fmt_err(&e),
+        },
+        OpKind::Find => match re.find(text) {
+            Ok(m) => fmt_span(m),
+            Err(e) => fmt_err(&e),
+        },
+        OpKind::FindFromPos(p) => match re.find_from_pos(text, clamp_pos(text, *p)) {
+            Ok(m) => fmt_span(m),
+            Err(e) => fmt_err(&e),
+        },
+        OpKind::Captures(p) => match re.captures_from_pos(text, clamp_pos(text, *p)) {
+            Ok(Some(c)) => fmt_caps(&c, re),
+            Ok(None) => "-".to_string(),
+            Err(e) => fmt_err(&e),
+        },
+        OpKind::CapturesHeld => match re.captures(text) {
+            Ok(Some(c)) => {
+                // other threads run (and take / drop their own Captures) while this one is held
+                sched::yield_now(SITE_OP_BOUNDARY);
+                let s = fmt_caps(&c, re);
+                sched::yield_now(SITE_OP_BOUNDARY);
+                drop(c);
+                s
+            }
+            Ok(None) => "-".to_string(),
+            Err(e) => fmt_err(&e),
+        },
+        OpKind::FindIter => {
+            let mut out = Vec::new();
+            for m in re.find_iter(text).take(text.chars().count() + 3) {
+                match m {
+                    Ok(m) => out.push(fmt_span(Some(m))),
+                    Err(e) => out.push(fmt_err(&e)),
+                }
+            }
+            out.join(" ")
+        }
+        OpKind::CapturesIter => {
+            let mut out = Vec::new();
+            for c in re.captures_iter(text).take(text.chars().count() + 3) {
+                match c {
+                    Ok(c) => out.push(format!("[{}]", fmt_caps(&c, re))),
+                    Err(e) => out.push(fmt_err(&e)),
+                }
+            }
+            out.join(" ")
+        }
+        OpKind::Split => {
+            let mut out = Vec::new();
+            for p in re.split(text).take(text.chars().count() + 4) {
+                match p {
+                    Ok(p) => out.push(format!("{:?}", p)),
+                    Err(e) => {
+                        out.push(fmt_err(&e));
+                        break;
+                    }
+                }
+            }
+            out.join(" ")
+        }
+        OpKind::SplitN(n) => {
+            let mut out = Vec::new();
+            for p in re.splitn(text, *n).take(text.chars().count() + 4) {
+                match p {
+                    Ok(p) => out.push(format!("{:?}", p)),
+                    Err(e) => {
+                        out.push(fmt_err(&e));
+                        break;
+                    }
+                }
+            }
+            out.join(" ")
+        }
+        OpKind::Replace(n, kind) => {
+            let r = match kind {
+                RepKind::Identity => re.try_replacen(text, *n, |c: &Captures<'_>| c[0].to_string()),
+                RepKind::Const => re.try_replacen(text, *n, |_: &Captures<'_>| "X".to_string()),
+                RepKind::NoExpand => re.try_replacen(text, *n, NoExpand("$0!")),
+                RepKind::Template => re.try_replacen(text, *n, "<${0}>"),
+                RepKind::Reentrant => re.try_replacen(text, *n, |c: &Captures<'_>| {
+                    // re-entrant use of the same regex on the same thread, mid-replace
+                    let inner = match re.find(&c[0]) {
+                        Ok(m) => fmt_span(m),
+                        Err(e) => fmt_err(&e),
+                    };
+                    format!("{{{}}}", inner)
+                }),
+            };
+            match r {
+                Ok(c) => format!("{:?}", c),
+                Err(e) => fmt_err(&e),
+            }
+        }
+        OpKind::CloneAndFind => {
+            let c = re.clone();
+            sched::yield_now(SITE_OP_BOUNDARY);
+            let r = match c.captures(text) {
+                Ok(Some(caps)) => fmt_caps(&caps, &c),
+                Ok(None) => "-".to_string(),
+                Err(e) => fmt_err(&e),
+            };
+            sched::yield_now(SITE_OP_BOUNDARY);
+            drop(c);
+            r
+        }
+    }
+}
+
+// ------------------------------------------------------------------------------------------------
+// reference (solo) results and the concurrent run
+
+/// Every call alone, single-threaded, on a freshly compiled regex.
+pub fn solo_results(sc: &Scenario) -> Option<Vec<Vec<String>>> {
+    verif::set_yield_hook(None);
+    let mut out = Vec::new();
+    for ops in &sc.threads {
+        let mut v = Vec::new();
+        for op in ops {
+            let re = sc.regexes[op.re].build()?;
+            v.push(exec_op(&re, &sc.texts[op.text], op));
+        }
+        out.push(v);
+    }
+    Some(out)
+}
+
+#[derive(Clone, Debug)]
+pub struct RunResult {
+    pub results: Vec<Vec<String>>,
+    pub handoffs: Vec<(u64, usize)>,
+    pub stats: sched::SchedStats,
+    pub deadlock: bool,
+    pub budget_exhausted: bool,
+}
+
+pub fn run_concurrent(sc: &Scenario, seed: u64, policy: Policy) -> Option<RunResult> {
+    let n = sc.threads.len();
+    let shared: Vec<Arc<Regex>> = sc.regexes.iter().map(|r| r.build().map(Arc::new)).collect::<Option<Vec<_>>>()?;
+    let texts = Arc::new(sc.texts.clone());
+    let sched = Sched::new(n, seed, policy, 5_000_000);
+    let results: Arc<Mutex<Vec<Vec<String>>>> = Arc::new(Mutex::new(vec![Vec::new(); n]));
+    let mut handles = Vec::new();
+    for t in 0..n {
+        let ops = sc.threads[t].clone();
+        let use_clone = match sc.sharing {
+            Sharing::Shared => false,
+            Sharing::Clones => true,
+            Sharing::Mixed => t % 2 == 1,
+        };
+        let regs: Vec<Arc<Regex>> = if use_clone {
+            shared.iter().map(|r| Arc::new((**r).clone())).collect()
+        } else {
+            shared.clone()
+        };
+        let texts = texts.clone();
+        let sched = sched.clone();
+        let results = results.clone();
+        handles.push(
+            std::thread::Builder::new()
+                .stack_size(16 << 20)
+                .spawn(move || {
+                    sched.enter(t);
+                    verif::set_yield_hook(Some(sched::yield_hook));
+                    let mut mine = Vec::new();
+                    for op in &ops {
+                        let r = exec_op(&regs[op.re], &texts[op.text], op);
+                        mine.push(r);
+                        sched::yield_now(SITE_OP_BOUNDARY);
+                    }
+                    verif::set_yield_hook(None);
+                    results.lock().unwrap()[t] = mine;
+                    drop(regs);
+                    sched.finish(t);
+                })
+                .expect("spawn simulated thread"),
+        );
+    }
+    sched.start();
+    let deadlock = sched.wait_all(Duration::from_secs(5), Duration::from_secs(20)).is_err();
+    if !deadlock {
+        for h in handles {
+            let _ = h.join();
+        }
+    }
+    let (handoffs, stats, budget_exhausted) = sched.take_trace();
+    let results = results.lock().unwrap().clone();
+    Some(RunResult { results, handoffs, stats, deadlock, budget_exhausted })
+}
+
+/// Compare a concurrent run with the solo results.
+pub fn judge(sc: &Scenario, solo: &[Vec<String>], r: &RunResult) -> Option<(String, String)> {
+    if r.deadlock {
+        return Some(("deadlock".into(), "no simulated thread can make progress, even with every thread released".into()));
+    }
+    for t in 0..sc.threads.len() {
+        if r.results[t].len() != solo[t].len() {
+            return Some((
+                "thread-did-not-finish".into(),
+                format!("thread {} completed {} of {} operations", t, r.results[t].len(), solo[t].len()),
+            ));
+        }
+        for (k, op) in sc.threads[t].iter().enumerate() {
+            if r.results[t][k] != solo[t][k] {
+                let class = if r.results[t][k].starts_with("PANIC") && !solo[t][k].starts_with("PANIC") {
+                    "panic-only-when-concurrent"
+                } else {
+                    "result-differs-from-solo"
+                };
+                return Some((
+                    class.into(),
+                    format!(
+                        "thread {} op #{} {:?} on /{}/ text {:?}: concurrent run returned {} ; alone on a fresh Regex it returns {}",
+                        t, k, op.kind, sc.regexes[op.re].pattern, sc.texts[op.text], r.results[t][k], solo[t][k]
+                    ),
+                ));
+            }
+        }
+    }
+    None
+}
+
+// ------------------------------------------------------------------------------------------------
+// scenario generation
+
+const C18_PATTERNS: &[&str] = &[
+    // delegated as a whole
+    r"\d{4}-\d{2}",
+    r"[ab]+c?",
+    r"(a|b)*c",
+    r"(?<w>\w+)-(\w+)",
+    r"a*",
+    // backtracking VM
+    r"(\w+) \1",
+    r"(a+)b\1",
+    r"\w+(?=!)",
+    r"(?>a+)b|ab",
+    r"(?<=a)b+",
+    r"(a|ab)(c|bcd)\2",
+    r"(?<x>a+)(?!b)\k<x>?",
+    r"(?:a|b)*?c(?=a|$)",
+    r"\Ga",
+    r"ab\Kc+",
+    r"(a)?(?(1)b|c)",
+    r"(a*)*b",
+    r"\b(\w)\w*\1\b",
+];
+
+fn gen_scenario(rng: &mut Rng, max_threads: usize) -> Option<Scenario> {
+    let n_re = rng.range(1, 2);
+    let mut regexes = Vec::new();
+    let cfg = GenCfg::swarm(rng);
+    for _ in 0..n_re {
+        let pattern = if rng.chance(2, 3) {
+            rng.pick(C18_PATTERNS).to_string()
+        } else {
+            gen::gen_pattern(rng, &cfg).render()
+        };
+        let builder_limit = if rng.chance(1, 8) { Some(*rng.pick(&[1usize, 3, 10, 100])) } else { None };
+        let spec = RegexSpec { pattern, builder_limit };
+        spec.build()?;
+        regexes.push(spec);
+    }
+    let n_texts = rng.range(2, 4);
+    let mut texts: Vec<String> = (0..n_texts).map(|_| gen::gen_text(rng, 8)).collect();
+    texts.push(rng.pick(&["aaab aaab!", "2018-04 ab-cd", "abcbcd abab", "aaaaaaaaaa", "ab ab! ba"]).to_string());
+    let n_threads = rng.range(2, max_threads);
+    let sharing = *rng.pick(&[Sharing::Shared, Sharing::Shared, Sharing::Clones, Sharing::Mixed]);
+    let mut threads = Vec::new();
+    for _ in 0..n_threads {
+        let n_ops = rng.range(2, if n_threads > 8 { 4 } else { 8 });
+        let mut ops = Vec::new();
+        for _ in 0..n_ops {
+            let text = rng.below(texts.len());
+            let tl = texts[text].len();
+            let kind = match rng.below(16) {
+                0 => OpKind::IsMatch,
+                1 | 2 => OpKind::Find,
+                3 => OpKind::FindFromPos(rng.below(tl + 1)),
+                4 | 5 => OpKind::Captures(if rng.chance(1, 2) { 0 } else { rng.below(tl + 1) }),
+                6 | 7 => OpKind::FindIter,
+                8 => OpKind::CapturesIter,
+                9 => OpKind::Split,
+                10 => OpKind::SplitN(rng.below(4)),
+                11 | 12 => OpKind::Replace(
+                    rng.below(3),
+                    rng.pick(&[RepKind::Identity, RepKind::Const, RepKind::NoExpand, RepKind::Template, RepKind::Reentrant]).clone(),
+                ),
+                13 => OpKind::CloneAndFind,
+                _ => OpKind::CapturesHeld,
+            };
+            ops.push(Op { kind, re: rng.below(regexes.len()), text, fault: None });
+        }
+        threads.push(ops);
+    }
+    Some(Scenario { regexes, texts, threads, sharing })
+}
+
+/// Add limit faults to some operations, placed where they can fire (thresholds read from a solo
+/// pass), and drop operations that are too heavy for a concurrency workload.
+fn place_faults_and_trim(sc: &mut Scenario, rng: &mut Rng) -> u64 {
+    let mut est_decisions = 0u64;
+    verif::set_yield_hook(None);
+    for t in 0..sc.threads.len() {
+        let mut keep = Vec::new();
+        for op in sc.threads[t].clone() {
+            let Some(re) = sc.regexes[op.re].build() else { continue };
+            verif::record_run_stats(true);
+            let _ = exec_op(&re, &sc.texts[op.text], &op);
+            let runs = verif::take_run_stats();
+            verif::record_run_stats(false);
+            let insns: u64 = runs.iter().map(|r| r.insns + r.backtracks).sum();
+            if insns > 20_000 {
+                continue; // too heavy: runs must make progress between hand-offs
+            }
+            est_decisions += insns + runs.len() as u64 * 3 + 4;
+            let mut op = op;
+            if !runs.is_empty() && rng.chance(1, 5) {
+                let j = rng.below(runs.len());
+                let rs = runs[j];
+                if rs.backtracks > 0 && rng.chance(2, 3) {
+                    op.fault = Some((j as u64, "ble".into(), rng.below(rs.backtracks as usize + 1)));
+                } else if rs.peak_depth > 0 {
+                    op.fault = Some((j as u64, "so".into(), rng.below(rs.peak_depth + 1)));
+                }
+            }
+            keep.push(op);
+        }
+        sc.threads[t] = keep;
+    }
+    sc.threads.retain(|t| !t.is_empty());
+    est_decisions
+}
+
+fn gen_policy(rng: &mut Rng, est_decisions: u64) -> Policy {
+    match rng.below(10) {
+        0..=4 => Policy::Uniform { q: rng.range(1, 64) },
+        5..=7 => {
+            let d = rng.range(1, 3);
+            let points = (0..d).map(|_| 1 + rng.below(est_decisions.max(2) as usize) as u64).collect();
+            Policy::Pct { points }
+        }
+        _ => Policy::OpBoundary,
+    }
+}
+
+// ------------------------------------------------------------------------------------------------
+// replay files
+
+fn op_to_json(op: &Op) -> Value {
+    let kind = match &op.kind {
+        OpKind::IsMatch => json!(["is_match"]),
+        OpKind::Find => json!(["find"]),
+        OpKind::FindFromPos(p) => json!(["find_from_pos", p]),
+        OpKind::Captures(p) => json!(["captures_from_pos", p]),
+        OpKind::FindIter => json!(["find_iter"]),
+        OpKind::CapturesIter => json!(["captures_iter"]),
+        OpKind::Split => json!(["split"]),
+        OpKind::SplitN(n) => json!(["splitn", n]),
+        OpKind::Replace(n, k) => json!(["try_replacen", n, format!("{:?}", k)]),
+        OpKind::CloneAndFind => json!(["clone_and_find"]),
+        OpKind::CapturesHeld => json!(["captures_held"]),
+    };
+    json!({"op": kind, "re": op.re, "text": op.text, "fault": op.fault.as_ref().map(|(j, k, v)| json!([j, k, v]))})
+}
+
+fn op_from_json(v: &Value) -> Option<Op> {
+    let a = v["op"].as_array()?;
+    let n = |i: usize| a.get(i).and_then(|x| x.as_u64()).map(|x| x as usize);
+    let kind = match a.first()?.as_str()? {
+        "is_match" => OpKind::IsMatch,
+        "find" => OpKind::Find,
+        "find_from_pos" => OpKind::FindFromPos(n(1)?),
+        "captures_from_pos" => OpKind::Captures(n(1)?),
+        "find_iter" => OpKind::FindIter,
+        "captures_iter" => OpKind::CapturesIter,
+        "split" => OpKind::Split,
+        "splitn" => OpKind::SplitN(n(1)?),
+        "try_replacen" => OpKind::Replace(
+            n(1)?,
+            match a.get(2)?.as_str()? {
+                "Identity" => RepKind::Identity,
+                "Const" => RepKind::Const,
+                "NoExpand" => RepKind::NoExpand,
+                "Template" => RepKind::Template,
+                "Reentrant" => RepKind::Reentrant,
+                _ => return None,
+            },
+        ),
+        "clone_and_find" => OpKind::CloneAndFind,
+        "captures_held" => OpKind::CapturesHeld,
+        _ => return None,
+    };
+    Some(Op {
+        kind,
+        re: v["re"].as_u64()? as usize,
+        text: v["text"].as_u64()? as usize,
+        fault: match &v["fault"] {
+            Value::Array(f) => Some((f[0].as_u64()?, f[1].as_str()?.to_string(), f[2].as_u64()? as usize)),
+            _ => None,
+        },
+    })
+}
+
+fn scenario_to_json(sc: &Scenario, handoffs: &[(u64, usize)], seed: u64) -> Value {
+    json!({
+        "kind": "c18",
+        "sched_seed": seed,
+        "regexes": sc.regexes.iter().map(|r| json!({"pattern": r.pattern, "builder_limit": r.builder_limit})).collect::<Vec<_>>(),
+        "texts": sc.texts,
+        "sharing": format!("{:?}", sc.sharing),
+        "threads": sc.threads.iter().map(|ops| ops.iter().map(op_to_json).collect::<Vec<_>>()).collect::<Vec<_>>(),
+        "schedule": handoffs.iter().map(|(d, t)| json!([d, t])).collect::<Vec<_>>(),
+    })
+}
+
+fn scenario_from_json(v: &Value) -> Option<(Scenario, Vec<(u64, usize)>, u64)> {
+    let regexes = v["regexes"]
+        .as_array()?
+        .iter()
+        .map(|r| Some(RegexSpec { pattern: r["pattern"].as_str()?.to_string(), builder_limit: r["builder_limit"].as_u64().map(|x| x as usize) }))
+        .collect::<Option<Vec<_>>>()?;
+    let texts = v["texts"].as_array()?.iter().map(|t| t.as_str().map(|s| s.to_string())).collect::<Option<Vec<_>>>()?;
+    let sharing = match v["sharing"].as_str()? {
+        "Shared" => Sharing::Shared,
+        "Clones" => Sharing::Clones,
+        _ => Sharing::Mixed,
+    };
+    let threads = v["threads"]
+        .as_array()?
+        .iter()
+        .map(|ops| ops.as_array()?.iter().map(op_from_json).collect::<Option<Vec<_>>>())
+        .collect::<Option<Vec<_>>>()?;
+    let schedule = v["schedule"]
+        .as_array()?
+        .iter()
+        .map(|h| Some((h[0].as_u64()?, h[1].as_u64()? as usize)))
+        .collect::<Option<Vec<_>>>()?;
+    Some((Scenario { regexes, texts, threads, sharing }, schedule, v["sched_seed"].as_u64().unwrap_or(0)))
+}
+
+fn run_forced(sc: &Scenario, handoffs: &[(u64, usize)]) -> Option<(String, String)> {
+    let solo = solo_results(sc)?;
+    let r = run_concurrent(sc, 0, Policy::Forced { handoffs: handoffs.to_vec() })?;
+    judge(sc, &solo, &r)
+}
+
+pub fn replay(case: &Value) -> Option<(String, String)> {
+    if case["kind"].as_str() == Some("static") {
+        return None;
+    }
+    let (sc, schedule, _) = scenario_from_json(case)?;
+    run_forced(&sc, &schedule)
+}
+
+/// Shrink: fewer hand-offs first (fewest preemptions), then drop operations and threads. A
+/// candidate is kept only if the forced run still fails with the same class.
+fn minimise(sc: &Scenario, handoffs: &[(u64, usize)], class: &str) -> (Scenario, Vec<(u64, usize)>) {
+    let mut cur_sc = sc.clone();
+    let mut cur_h = handoffs.to_vec();
+    let same = |s: &Scenario, h: &[(u64, usize)]| run_forced(s, h).map_or(false, |(c, _)| c == class);
+    let mut budget = 120;
+    // drop hand-offs
+    let mut i = cur_h.len();
+    while i > 1 && budget > 0 {
+        i -= 1;
+        let mut h = cur_h.clone();
+        h.remove(i);
+        budget -= 1;
+        if same(&cur_sc, &h) {
+            cur_h = h;
+        }
+    }
+    // drop operations (schedule indices shift, so only keep the change when it still fails)
+    let mut t = 0;
+    while t < cur_sc.threads.len() && budget > 0 {
+        let mut k = cur_sc.threads[t].len();
+        while k > 0 && budget > 0 {
+            k -= 1;
+            let mut s = cur_sc.clone();
+            s.threads[t].remove(k);
+            budget -= 1;
+            if same(&s, &cur_h) {
+                cur_sc = s;
+            }
+        }
+        t += 1;
+    }
+    (cur_sc, cur_h)
+}
+
+// ------------------------------------------------------------------------------------------------
+
+#[derive(Default)]
+struct JobOut {
+    runs: u64,
+    ops: u64,
+    decisions: u64,
+    handoffs: u64,
+    faulted_ops: u64,
+    fault_results_err: u64,
+    overlap_runs: u64,
+    max_in_flight: usize,
+    clone_ops: u64,
+    reentrant_ops: u64,
+    free_runs: u64,
+    budget_exhausted: u64,
+    threads_hist: Vec<u64>,
+    policy_counts: [u64; 3],
+    sched_hashes: Vec<u64>,
+    site_counts: Vec<u64>,
+    sample: Option<Value>,
+    digest: u64,
+}
+
+fn job(seed: u64, i: u64, max_threads: usize, runs_per_job: usize) -> (JobOut, Option<Violation>) {
+    let mut out = JobOut { threads_hist: vec![0; 17], site_counts: vec![0; 128], ..JobOut::default() };
+    let mut rng = Rng::new(derive(seed, i));
+    for _ in 0..runs_per_job {
+        let mt = if rng.chance(1, 10) { max_threads } else { max_threads.min(8) };
+        let Some(mut sc) = gen_scenario(&mut rng, mt) else { continue };
+        let est = place_faults_and_trim(&mut sc, &mut rng);
+        if sc.threads.len() < 2 {
+            continue;
+        }
+        let Some(solo) = solo_results(&sc) else { continue };
+        let policy = gen_policy(&mut rng, est);
+        let sched_seed = rng.next_u64();
+        let Some(r) = run_concurrent(&sc, sched_seed, policy.clone()) else { continue };
+        out.runs += 1;
+        out.threads_hist[sc.threads.len().min(16)] += 1;
+        out.policy_counts[match policy {
+            Policy::Uniform { .. } => 0,
+            Policy::Pct { .. } => 1,
+            _ => 2,
+        }] += 1;
+        out.decisions += r.stats.decisions;
+        out.handoffs += r.stats.handoffs;
+        out.max_in_flight = out.max_in_flight.max(r.stats.max_in_flight);
+        if r.stats.max_in_flight >= 2 {
+            out.overlap_runs += 1;
+        }
+        if r.stats.free_run {
+            out.free_runs += 1;
+        }
+        if r.budget_exhausted {
+            out.budget_exhausted += 1;
+        }
+        for (a, b) in out.site_counts.iter_mut().zip(r.stats.site_counts.iter()) {
+            *a += *b;
+        }
+        for (t, ops) in sc.threads.iter().enumerate() {
+            for (k, op) in ops.iter().enumerate() {
+                out.ops += 1;
+                if op.fault.is_some() {
+                    out.faulted_ops += 1;
+                    if solo[t][k].contains("Err(") {
+                        out.fault_results_err += 1;
+                    }
+                }
+                match op.kind {
+                    OpKind::CloneAndFind => out.clone_ops += 1,
+                    OpKind::Replace(_, RepKind::Reentrant) => out.reentrant_ops += 1,
+                    _ => {}
+                }
+            }
+        }
+        let sh = sched::schedule_hash(&r.handoffs);
+        if r.stats.handoffs >= 1 {
+            out.sched_hashes.push(sh);
+        }
+        let mut d = Fnv(out.digest ^ sh);
+        for t in &r.results {
+            for s in t {
+                d.str(s);
+            }
+        }
+        out.digest = d.0;
+        if out.sample.is_none() && r.stats.handoffs >= 2 {
+            out.sample = Some(json!({
+                "threads": sc.threads.len(),
+                "regexes": sc.regexes.iter().map(|r| r.pattern.clone()).collect::<Vec<_>>(),
+                "sharing": format!("{:?}", sc.sharing),
+                "policy": format!("{:?}", policy).chars().take(80).collect::<String>(),
+                "first_ops_of_thread_0": sc.threads[0].iter().take(3).map(op_to_json).collect::<Vec<_>>(),
+                "handoffs": r.stats.handoffs,
+                "decisions": r.stats.decisions,
+                "first_handoffs": r.handoffs.iter().take(8).map(|(d, t)| json!([d, t])).collect::<Vec<_>>(),
+            }));
+        }
+        if let Some((class, detail)) = judge(&sc, &solo, &r) {
+            if r.stats.free_run {
+                // not replayable: report as found, with the recorded scenario
+                let v = Violation::new(PROP, &class, format!("{} (run fell back to free-running mode: foreign blocking; schedule not replayable)", detail), scenario_to_json(&sc, &r.handoffs, sched_seed));
+                return (out, Some(v));
+            }
+            let (msc, mh) = if class == "deadlock" { (sc.clone(), r.handoffs.clone()) } else { minimise(&sc, &r.handoffs, &class) };
+            let detail = run_forced(&msc, &mh).map(|(_, d)| d).unwrap_or(detail);
+            return (out, Some(Violation::new(PROP, &class, detail, scenario_to_json(&msc, &mh, sched_seed))));
+        }
+    }
+    (out, None)
+}
+
+pub fn digest(seed: u64, n: u64, workers: usize) -> Vec<u64> {
+    let (res, _) = run_batch(n, workers, move |i| {
+        let (o, v) = job(seed, i, 6, 2);
+        let mut d = Fnv(o.digest);
+        d.u64(o.decisions);
+        d.u64(o.handoffs);
+        d.u64(v.is_some() as u64);
+        (d.0, None)
+    });
+    res.into_iter().map(|(_, d)| d).collect()
+}
+
+pub fn run(opts: &Opts) -> i32 {
+    let t0 = now();
+    let thorough = opts.tier == Tier::Thorough;
+    let n = if opts.budget > 0 { opts.budget } else if thorough { 40_000 } else { 1_500 };
+    let seed = opts.seed;
+    let (results, viol) = run_batch(n, opts.workers, move |i| job(seed, i, 16, 4));
+    let mut agg = JobOut { threads_hist: vec![0; 17], site_counts: vec![0; 128], ..JobOut::default() };
+    let mut hashes: HashSet<u64> = HashSet::new();
+    let mut samples = Vec::new();
+    for (_, r) in &results {
+        agg.runs += r.runs;
+        agg.ops += r.ops;
+        agg.decisions += r.decisions;
+        agg.handoffs += r.handoffs;
+        agg.faulted_ops += r.faulted_ops;
+        agg.fault_results_err += r.fault_results_err;
+        agg.overlap_runs += r.overlap_runs;
+        agg.max_in_flight = agg.max_in_flight.max(r.max_in_flight);
+        agg.clone_ops += r.clone_ops;
+        agg.reentrant_ops += r.reentrant_ops;
+        agg.free_runs += r.free_runs;
+        agg.budget_exhausted += r.budget_exhausted;
+        for k in 0..17 {
+            agg.threads_hist[k] += r.threads_hist[k];
+        }
+        for k in 0..3 {
+            agg.policy_counts[k] += r.policy_counts[k];
+        }
+        for (a, b) in agg.site_counts.iter_mut().zip(r.site_counts.iter()) {
+            *a += *b;
+        }
+        hashes.extend(r.sched_hashes.iter());
+        if samples.len() < 3 {
+            if let Some(s) = &r.sample {
+                samples.push(s.clone());
+            }
+        }
+    }
+    let wall = t0.elapsed().as_secs_f64();
+    let mut code = 0;
+    let mut violations = 0;
+    if let Some((i, v)) = &viol {
+        violations = 1;
+        let path = write_replay(v, derive(seed, *i));
+        report_violation(v, &path);
+        code = 1;
+    }
+    if samples.is_empty() {
+        samples.push(json!("no run with >= 2 hand-offs"));
+    }
+    if opts.write_evidence {
+        let mut extra = serde_json::Map::new();
+        extra.insert("simulated_runs".into(), json!(agg.runs));
+        extra.insert("operations".into(), json!(agg.ops));
+        extra.insert("distinct_interleavings".into(), json!({"count": hashes.len(), "measure": "hash of the recorded hand-off list (decision index, thread) of each run with >= 1 hand-off"}));
+        extra.insert("logical_time".into(), json!({"scheduler_decisions": agg.decisions, "thread_handoffs": agg.handoffs,
+            "note": "no wall-clock in the system under test; simulated time is logical (scheduling decisions = yield points reached)"}));
+        extra.insert("faults".into(), json!({
+            "ops_with_limit_fault_configured": agg.faulted_ops,
+            "ops_with_limit_fault_whose_result_shows_the_error": agg.fault_results_err,
+        }));
+        let names = ["vm_insn", "vm_backtrack", "vm_delegate", "api_is_match", "api_find", "api_captures", "iter_matches_next", "iter_captures_next", "iter_split_next", "iter_splitn_next", "replace_fast_round", "replace_slow_round"];
+        let mut sites = serde_json::Map::new();
+        for (k, nme) in names.iter().enumerate() {
+            sites.insert(nme.to_string(), json!(agg.site_counts[k]));
+        }
+        sites.insert("op_boundary".into(), json!(agg.site_counts[SITE_OP_BOUNDARY as usize]));
+        extra.insert("yield_points_reached_by_site".into(), Value::Object(sites));
+        extra.insert("probes".into(), json!({
+            "runs_with_two_or_more_searches_in_flight": agg.overlap_runs,
+            "max_searches_in_flight": agg.max_in_flight,
+            "clone_during_run_ops": agg.clone_ops,
+            "reentrant_replacer_ops": agg.reentrant_ops,
+            "runs_by_thread_count": agg.threads_hist,
+            "runs_by_policy_uniform_pct_opboundary": agg.policy_counts,
+            "runs_in_free_running_mode_foreign_blocking": agg.free_runs,
+            "runs_over_decision_budget": agg.budget_exhausted,
+        }));
+        extra.insert("runs_per_hour".into(), json!(((agg.runs as f64) / wall.max(1e-9) * 3600.0) as u64));
+        extra.insert("seeds".into(), json!(format!("derive({}, 0..{}) x 4 runs each", seed, results.len())));
+        extra.insert("real_vs_stub".into(), json!({
+            "real": ["fancy_regex (whole public search API)", "regex-automata incl. its cache pool", "real OS threads, real thread-locals"],
+            "stubbed": ["the OS scheduler: replaced by the seeded baton scheduler (one thread runs at a time, hand-offs only at hook yield points)", "limits of chosen searches overridden through the H2 hook"],
+        }));
+        Evidence {
+            property: PROP.into(),
+            tier: opts.tier,
+            seed,
+            level: "exploration",
+            evaluations: agg.runs,
+            distinct_nontrivial: hashes.len() as u64,
+            rule: "run = scenario (1-2 regexes from a corpus half delegated / half VM or the seeded grammar, 2..16 threads, 2..8 API operations each, shared / cloned / mixed) x one seeded schedule (uniform 1/q, PCT-like with 1..3 preemption points, or operation-boundary policy); non-trivial = at least one hand-off happened; distinct by hash of the hand-off list".into(),
+            samples,
+            extra,
+            assumptions: vec![
+                "threads can lose the CPU only at the hook yield points (every VM instruction, backtrack, delegate call, API and iterator seam)".into(),
+                "races below that granularity exist only for unsafe code and are left to the Miri slice of the thorough tier".into(),
+            ],
+            wall_s: wall,
+            violations,
+        }
+        .write();
+    }
+    println!(
+        "C18 {}: {} simulated runs, {} ops, {} decisions, {} hand-offs, {} distinct interleavings, {:.1}s",
+        opts.tier.name(), agg.runs, agg.ops, agg.decisions, agg.handoffs, hashes.len(), wall
+    );
+    code
+}
